@@ -422,6 +422,25 @@ EndClauses(c, e) ==
   \cup Cl("srcFull" \in DOMAIN begin /\ c.retR = "ok" /\ c.realR /\ c.realS /\ ~merge
           /\ PathsOf(e.after) # PathsOf(begin.srcFull), "C04.receiveSuccessWithPartialTree")
 
+\* explanation test for a recorded finding: a receiver without CAP_DAC_OVERRIDE opens a read-only file for its content by
+\* changing the mode for a moment (lazyFileWriter); two names of one inode can be written at the same time (the hard-link
+\* exception of C02), and then the two writers race on the inode's mode: one finds the file read-only again (the transfer
+\* fails), or saves the other's temporary mode as "the" mode and restores that.  Matched: the case ran unprivileged, the
+\* view holds a read-only regular file with several names, and the clause is one this race can produce
+UnprivLinkRace(c, e) ==
+  LET evs == CaseEvents(c, l)
+      begin == evs[1]
+      stats == StatsOf(evs)
+  IN "unpriv" \in DOMAIN begin /\ begin.unpriv
+     /\ \E i \in DOMAIN stats : /\ stats[i].t = "file" /\ (stats[i].perm \div 128) % 2 = 0
+                                 /\ (stats[i].hl # <<>> \/ \E j \in DOMAIN stats : stats[j].hl = stats[i].p)
+UnprivAffected == {"C01.entryAttributes", "C01.faultFreeTransferFailed", "C02.faultFreeTransferFailed", "C05.faultFreeTransferFailed",
+                   "C11.faultFreeTransferFailed", "C08.outcomeDependsOnSchedule", "C02.destinationStillDiffersAfterSync"}
+UnprivRename(c, e, S) ==
+  IF S \cap UnprivAffected = {} THEN S
+  ELSE IF UnprivLinkRace(c, e) THEN {IF x \in UnprivAffected THEN x \o "/explainedByUnprivilegedLinkWriters" ELSE x : x \in S}
+  ELSE S
+
 EndDetail(c, e) ==
   LET evs == CaseEvents(c, l)
       before == FilterTree(evs[1].before, FilterOf(evs[1]))
@@ -480,7 +499,7 @@ Consume(c, e) ==
                                   \cup (IF c.faults = 0 /\ c.realS /\ c.realR THEN {"C11.faultFreeTransferStuck", "C08.transferStuckUnderSchedule"} ELSE {})>>
          [] e.ev = "EnvTearDown" -> <<c, {}>>
          [] e.ev = "Leak" -> <<c, {"C04.goroutineLeak"}>>
-         [] e.ev = "End" -> <<NoCase, EndClauses(c, e)>>
+         [] e.ev = "End" -> <<NoCase, UnprivRename(c, e, EndClauses(c, e))>>
          [] OTHER -> <<c, {"HARNESS.unknownEvent"}>>
 
 Init == l = 1 /\ failed = <<>> /\ cs = NoCase
